@@ -109,6 +109,7 @@ def conf_plan(prop, fams, kinds):
             ctx.mc_replay(fam, "MC_Attrs.tla", "MC_Attrs.cfg", "fam_%s.json" % fam, props, variants=1 if prop == "C07" else 2,
                           consts={"MaxAttrs": mq if q else mt}, replaycmd="replayattrs", timeout=3000)
         if prop == "C20":
+            ctx.vh("twicebig", ["twicebig"], timeout=1200)   # large and escape-expanding inputs under the shipped policies
             # the property names UGCPolicy and StrictPolicy explicitly: the shipped-policy family (vocabulary and hostile tokens)
             ctx.mc_replay("ugc-hist", "MC_Loop.tla", "MC_Loop_hist.cfg", "fam_ugc.json", props, variants=1,
                           consts={"MaxLen": 2 if q else 3}, timeout=3000)
@@ -149,24 +150,24 @@ PLANS["C04"] = c04_plan
 
 def c17_plan(ctx, tier):
     q = tier == "quick"
-    # measured: the full 42-call alphabet at three calls is > 1.5 M states of 7 KB each; three calls run over a reduced alphabet
+    # measured: the full 43-call alphabet at three calls is > 1.5 M states of 7 KB each; three calls run over a reduced alphabet
     ctx.mc_replay("policy", "MC_Policy.tla", "MC_Policy.cfg", "fam_policy.json", ["C17"], replaycmd="replaypolicy",
                   consts={"MaxLen": 2, "AlgDepth": 1 if q else 2}, timeout=3400)
     if not q:
         ctx.mc_replay("policy3", "MC_Policy.tla", "MC_Policy.cfg", "fam_policy3.json", ["C17"], replaycmd="replaypolicy",
                       consts={"MaxLen": 3, "AlgDepth": 1}, timeout=3400)
     ctx.trace("policyfuzz", ["C17"], cmd=["policyfuzz", "-n", "150" if q else "3000"], timeout=3000)
-    return dict(rule=("TLC explores every history of <= 2 builder calls (42-call alphabet incl. case variants, toggles, helpers; thorough: also <= 3 calls over a 17-call alphabet) on two policy "
+    return dict(rule=("TLC explores every history of <= 2 builder calls (43-call alphabet incl. case variants, toggles, helpers; thorough: also <= 3 calls over an 18-call alphabet) on two policy "
                       "instances from 4 constructor pairs and checks Commute, Idempotent, CaseBlind, SwitchLastWrite, RulesAccumulate, Independent; "
                       "each history is replayed on the real API: snapshot of each instance = predicted policy, the untouched instance's snapshot "
                       "never changes, an instance built next to another behaves like the same calls made alone, and all histories reaching the "
-                      "same abstract policy behave identically on 13 probe documents; two direct oracles on the real API: accumulation (for every ordered pair of "
+                      "same abstract policy behave identically on 14 probe documents; two direct oracles on the real API: accumulation (for every ordered pair of "
                       "rule-adding calls c1, c2 of the family and NewPolicy/UGCPolicy, whatever ctor+c1 lets through ctor+c1+c2 lets through as well) and "
                       "used-while-built (the same calls with the policy sanitising the probe documents between them behave like the calls made "
                       "without uses). policyfuzz: random recipes vs permuted / upper-cased / "
                       "repeated / interleaved variants with the same rule set; interleaved constructions are trace-validated (build events with "
                       "snapshots of both instances). non-trivial = distinct abstract policies reached"),
-                exhaustive=False, assumptions=ASSUME_COMMON + ["behavioural equality is judged on 13 probe documents over the union vocabulary"])
+                exhaustive=False, assumptions=ASSUME_COMMON + ["behavioural equality is judged on 14 probe documents over the union vocabulary"])
 
 
 PLANS["C17"] = c17_plan
@@ -234,6 +235,10 @@ def c14_plan(ctx, tier):
     ctx.mc_replay("cost", "MC_Cost.tla", "MC_Cost.cfg", "fam_loopq.json", ["C14"], replaycmd="replaycost", workers=8,
                   consts={"N": 3 if q else 4, "NF": 2, "FamN": 8 if q else 12, "FamNF": 3}, timeout=3400)
     ctx.vh("costcheck", ["costcheck"] + ([] if q else ["-deep"]), timeout=3400)
+    # "never panics" on the shapes the other checks explore: nested same-name elements, link options with unparsable hrefs
+    ctx.mc_replay("nestw", "MC_Loop.tla", "MC_Loop_hist.cfg", "fam_nestw.json", ["C14"], variants=1, consts={"MaxLen": 6 if q else 7}, timeout=3000)
+    ctx.mc_replay("link", "MC_Attrs.tla", "MC_Attrs.cfg", "fam_link.json", ["C14"], variants=1, consts={"MaxAttrs": 1 if q else 2},
+                  replaycmd="replayattrs", timeout=3000)
     ctx.trace("panic-freedom", ["C14"], sessions=60 if q else 600, calls=40 if q else 80, kinds="3,4,4,5,5,8,8,6,0", check_attrs=True,
               extra=["-nounsafe=false"], timeout=3400)
     return dict(rule=("TLC enumerates every verdict matrix (which handler accepts which block of tokens) up to N tokens x NF handlers and six "
